@@ -134,3 +134,9 @@ Theorem C19_specified_event_types_dedicated : all_event_types_dedicated event_ty
 Proof. vm_compute. reflexivity. Qed.
 Eval compute in "PA:C19_specified_event_types_dedicated"%string.
 Print Assumptions C19_specified_event_types_dedicated.
+
+(** ... and the legacy names listed in [spec_aliases] read as the standard event type they stand for. *)
+Theorem C19_legacy_names_read_as_standard : all_aliases_ok event_type_enums = true.
+Proof. vm_compute. reflexivity. Qed.
+Eval compute in "PA:C19_legacy_names_read_as_standard"%string.
+Print Assumptions C19_legacy_names_read_as_standard.
